@@ -592,6 +592,38 @@ def gen_request(rng: random.Random, prog, *, allow_bad=True, allow_dup=False):
     return {"inputs": inputs, "outputs": outputs, "drop": rng.random() < 0.5, "kind": kind}
 
 
+def gen_odd_request(rng: random.Random, prog):
+    """A request with an unusual dictionary: an empty input or output name, a key that is not a
+    string, odd characters, a non-Var value or a repeated Var *after* at least one regular input."""
+    req = None
+    for _ in range(10):
+        r = gen_request(rng, prog, allow_bad=False)
+        e = expected(prog, r)
+        if e and e[0] == "ok" and len(r["inputs"]) >= 2:
+            req = r
+            break
+    if req is None:
+        return None
+    junk = [n["id"] for n in top_level(prog) if n["k"] == "junk"]
+    how = rng.choice(["empty-name", "empty-name", "nonstr-key", "odd-name", "dup-late", "empty-output-name"]
+                     + (["nonvar-late"] if junk else []))
+    k = rng.randrange(1, len(req["inputs"]))
+    if how == "empty-name":
+        req["inputs"][k][0] = ""
+    elif how == "nonstr-key":
+        req["inputs"][k][0] = 7
+    elif how == "odd-name":
+        req["inputs"][k][0] = "a b/\u00fc:0"
+    elif how == "dup-late":
+        req["inputs"].append(["dup_key", req["inputs"][0][1]])
+    elif how == "empty-output-name":
+        req["outputs"][-1][0] = ""
+    else:
+        req["inputs"].insert(k, ["junk_in", rng.choice(junk)])
+    req["kind"] = "odd:" + how
+    return req
+
+
 def gen_stale_name_pair(rng: random.Random, prog):
     """Two requests over the same Vars: one that fails *inside* build (after the inputs were
     temporarily renamed), then one with drop_unused_inputs=True that uses an argument of the first
@@ -618,10 +650,14 @@ def gen_stale_name_pair(rng: random.Random, prog):
     name_of = {a: keys[j] for j, a in enumerate(order)}
     a = rng.choice(used)
     b = rng.choice(unused)
-    how = rng.choice(["clash", "dup", "missing"] if len(used) >= 2 else ["clash", "dup"])
+    how = rng.choice(["clash", "dup", "empty", "missing"] if len(used) >= 2 else ["clash", "dup", "empty"])
     first = {"inputs": [[name_of[x], x] for x in order], "outputs": [[f"y{j}", o] for j, o in enumerate(outs)],
              "drop": rng.random() < 0.5, "kind": "fail-inside:" + how}
-    if how == "clash":
+    if how == "empty":
+        # `a` first, an empty name later: whatever build makes of "", `a` must not keep its key
+        first["inputs"] = [[name_of[a], a]] + [e for e in first["inputs"] if e[1] != a]
+        first["inputs"][rng.randrange(1, len(first["inputs"]))][0] = ""
+    elif how == "clash":
         first["outputs"][0][0] = name_of[rng.choice(used)]  # ScopeError when the results are named
     elif how == "dup":
         first["inputs"].append(["dup_key", rng.choice(order)])
@@ -648,6 +684,8 @@ def expected(prog, req):
     outs = [(n, idx[i]) for n, i in req["outputs"]]
     if any(nd["k"] != "arg" for _, nd in ins) or any(nd["k"] == "junk" for _, nd in outs):
         return ("err", "Type")
+    if any(not isinstance(n, str) or n == "" for n, _ in req["inputs"] + req["outputs"]):
+        return None  # empty names / keys that are not strings: the property does not say
     in_ids = [i for _, i in req["inputs"]]
     if len(set(in_ids)) != len(in_ids) or not outs:
         return None  # one Var under two keys / no outputs: the property does not say
